@@ -40,6 +40,8 @@ type FilterFunc func(sctx *search.SearchContext, d *search.DocumentMatch) bool
 type FilteringSearcher struct {
 	child  search.Searcher
 	accept FilterFunc
+	// searchers the FilterFunc reads from, closed along with child
+	filterSearchers []search.Searcher
 }
 
 func NewFilteringSearcher(ctx context.Context, s search.Searcher, filter FilterFunc) *FilteringSearcher {
@@ -85,8 +87,21 @@ func (f *FilteringSearcher) Advance(ctx *search.SearchContext, ID index.IndexInt
 	return f.Next(ctx)
 }
 
+// CloseWith makes Close also close s, a searcher that the FilterFunc
+// consults and that nothing else would close.
+func (f *FilteringSearcher) CloseWith(s search.Searcher) *FilteringSearcher {
+	f.filterSearchers = append(f.filterSearchers, s)
+	return f
+}
+
 func (f *FilteringSearcher) Close() error {
-	return f.child.Close()
+	err := f.child.Close()
+	for _, s := range f.filterSearchers {
+		if cerr := s.Close(); cerr != nil && err == nil {
+			err = cerr
+		}
+	}
+	return err
 }
 
 func (f *FilteringSearcher) Weight() float64 {
